@@ -27,7 +27,7 @@ def plan(tier, seed):
     # identifiers) forced to begin / end with byte patterns that content-sniffing code keys on (instrument.Steer)
     for j in range(3):
         specs.append({"name": f"dropped-index-generations-{j}", "kind": "generations", "schemes": gen.SCHEMES[j::3],
-                      "rounds": 1 if tier == "quick" else 8, "generations": 60, "budget_s": 120})
+                      "rounds": 1 if tier == "quick" else 8, "generations": 120, "budget_s": 120})
     specs.append({"name": "real-server-many-services", "kind": "many_services", "services": 27 if tier == "quick" else 150,
                   "small_services": 900 if tier == "quick" else 4000, "budget_s": 100 if tier == "quick" else 400})
     for j in range(3 if tier == "quick" else 6):
